@@ -127,7 +127,7 @@ def _unquote_tla_string(s):
 
 def tlc(module, cfg=None, workdir=None, workers=8, timeout=900, simulate=None, depth=None,
         env=None, coverage=False, json_out=None, want_lines=False, deadlock=False,
-        xmx="4g", dfid=None, extra=None, depth_first=False, tool_seed=None):
+        xmx="3g", dfid=None, extra=None, depth_first=False, tool_seed=None):
     """Run TLC on spec/<module>.tla with spec/<cfg>.  Lines printed by
     PrintT(ToJson(..)) are decoded; if json_out is a path they are streamed
     there (one JSON document per line) instead of being kept in memory."""
@@ -236,7 +236,7 @@ def tlc_must_pass(res, what):
     raise ToolError(f"TLC run failed: {what}")
 
 
-def validate_trace(module, trace_path, cfg=None, timeout=900, env=None, xmx="4g"):
+def validate_trace(module, trace_path, cfg=None, timeout=900, env=None, xmx="2g"):
     """P3: run a Trace_* spec over an ndjson trace.  Returns (accepted, info).
     The trace spec prints <<"REJECT", index, record>> on the first unmatched
     event, or an invariant violation is raised on a matched prefix."""
@@ -358,8 +358,8 @@ def count_lines(path):
     return n
 
 
-def validate_trace_sharded(module, trace_path, shards=8, cfg=None, timeout=900, boundary=None, env=None,
-                           xmx="3g"):
+def validate_trace_sharded(module, trace_path, shards=6, cfg=None, timeout=900, boundary=None, env=None,
+                           xmx="2g"):
     """Split an ndjson trace into up to `shards` pieces (only at lines for
     which boundary(line) holds; default: anywhere) and validate the pieces in
     parallel JVMs.  Returns (accepted, info) where info['reject'] holds the
